@@ -13,6 +13,4 @@ INVARIANT ExactlyOnce
 INVARIANT PerThreadOrder
 INVARIANT OnlyFired
 INVARIANT NothingLost
-PROPERTY Delivery
-PROPERTY LoopEnds
 CHECK_DEADLOCK TRUE
